@@ -298,10 +298,13 @@ fn cf_twins_body(pair_vertical: bool, pp_kind: u8, upper_is_older: bool) {
     assert!(pir_of(&cc.l) == pir_after_pair, "upper twin prev_in_result");
 
     kani::cover!(s.l.get_edge_type() == EdgeType::SameTransition && s.l.is_in_result(), "same transition kept");
-    kani::cover!(s.l.get_edge_type() == EdgeType::DifferentTransition && s.l.is_in_result(), "different transition kept");
     kani::cover!(!s.l.is_in_result(), "pair dropped");
     kani::cover!(expect == ResultTransition::OutIn, "pair OutIn");
-    kani::cover!(expect == ResultTransition::InOut, "pair InOut");
+    if pp_kind != 0 {
+        // without a predecessor both operands are outside below: only equal transitions exist
+        kani::cover!(s.l.get_edge_type() == EdgeType::DifferentTransition && s.l.is_in_result(), "different transition kept");
+        kani::cover!(expect == ResultTransition::InOut, "pair InOut");
+    }
     std::mem::forget((s, cc, pp, far));
 }
 
@@ -324,68 +327,91 @@ twins!(cf_twins_vert_pp1_older, true, 1, true);
 
 /// C05: the four selection tables are mutually consistent on one and the same flag state
 /// (no oracle: the real function is run once per operation and the outputs are related).
-#[kani::proof]
-#[kani::unwind(3)]
-fn cf_relational() {
+/// typed: 0 plain edge, 1 SameTransition, 2 DifferentTransition (lower twin being recomputed).
+fn cf_relational_body(typed: u8) -> Rel {
     let (s_r, c_r): (bool, bool) = (kani::any(), kani::any());
     let p_subject: bool = kani::any();
     let e_subject: bool = kani::any();
     let prev_vertical: bool = kani::any();
-    kani::assume(!(prev_vertical && p_subject == e_subject)); // KF1 region is decided by cf_step_same_vert
-    let typed: u8 = kani::any();
-    kani::assume(typed < 3); // 0 Normal, 1 SameTransition, 2 DifferentTransition (lower twin being recomputed)
     let far = seg_c(c(-2., -2.), c(5., -2.), true, 9);
-    let ops = [Operation::Intersection, Operation::Union, Operation::Xor, Operation::Difference];
-    let mut inres = [false; 4];
-    let mut outin = [false; 4];
-    let mut i = 0;
-    while i < 4 {
-        let (prev, prev_r, _pir) = make_prev(prev_vertical, p_subject, s_r, c_r, &far.l);
+    // compute_fields never writes to the predecessor: one predecessor serves all four runs
+    let (prev, prev_r, _pir) = make_prev(prev_vertical, p_subject, s_r, c_r, &far.l);
+    let run = |op: Operation| -> (bool, bool) {
         let e = seg_c(c(1., 1.), c(3., 1.), e_subject, 2);
         e.l.set_edge_type(match typed {
             0 => EdgeType::Normal,
             1 => EdgeType::SameTransition,
             _ => EdgeType::DifferentTransition,
         });
-        compute_fields(&e.l, Some(&prev), ops[i]);
-        inres[i] = e.l.is_in_result();
-        outin[i] = e.l.get_result_transition() == ResultTransition::OutIn;
-        std::mem::forget((e, prev, prev_r));
-        i += 1;
-    }
-    let (it, un, xo, di) = (0, 1, 2, 3);
-    if typed == 0 {
-        assert!(inres[xo], "xor keeps every plain edge");
-        assert!(inres[it] != inres[un], "a plain edge bounds exactly one of intersection and union");
-        assert!(inres[di] == if e_subject { inres[un] } else { inres[it] }, "difference = union on subject edges, intersection on clipping edges");
-        // xor follows the edge's own direction where the other operand is outside (union edge) and
-        // the inverted direction where it is inside (intersection edge)
-        if inres[un] {
-            assert!(outin[xo] == outin[un], "xor edge outside the other operand has the union edge's direction");
-        } else {
-            assert!(outin[xo] != outin[it], "xor edge inside the other operand has the inverted direction");
-        }
-        // the difference edge has the direction of the union edge on subject edges and the opposite
-        // direction of the intersection edge on clipping edges (B's boundary is traversed inverted)
-        if inres[di] {
-            if e_subject {
-                assert!(outin[di] == outin[un], "A-B follows A's boundary direction");
-            } else {
-                assert!(outin[di] != outin[it], "A-B follows B's boundary inverted");
-            }
-        }
-    } else if typed == 1 {
-        assert!(inres[it] && inres[un] && !inres[xo] && !inres[di], "equal transitions: intersection and union keep the shared edge, xor and difference drop it");
-        assert!(outin[it] == outin[un], "[KF2] shared edge has one direction for intersection and union");
-    } else {
-        assert!(!inres[it] && !inres[un] && !inres[xo] && inres[di], "opposite transitions: only the difference keeps the shared edge");
-    }
-    kani::cover!(typed == 0 && inres[it], "plain edge of the intersection");
-    kani::cover!(typed == 0 && inres[di] && !e_subject, "clipping edge of the difference");
-    kani::cover!(typed == 1, "shared edge, equal transitions");
-    kani::cover!(typed == 2, "shared edge, opposite transitions");
-    std::mem::forget(far);
+        compute_fields(&e.l, Some(&prev), op);
+        let r = (e.l.is_in_result(), e.l.get_result_transition() == ResultTransition::OutIn);
+        std::mem::forget(e);
+        r
+    };
+    let (in_it, oi_it) = run(Operation::Intersection);
+    let (in_un, oi_un) = run(Operation::Union);
+    let (in_xo, oi_xo) = run(Operation::Xor);
+    let (in_di, oi_di) = run(Operation::Difference);
+    std::mem::forget((prev, prev_r, far));
+    Rel { in_it, oi_it, in_un, oi_un, in_xo, oi_xo, in_di, oi_di, e_subject, same_vert: prev_vertical && p_subject == e_subject }
 }
+struct Rel {
+    in_it: bool,
+    oi_it: bool,
+    in_un: bool,
+    oi_un: bool,
+    in_xo: bool,
+    oi_xo: bool,
+    in_di: bool,
+    oi_di: bool,
+    e_subject: bool,
+    same_vert: bool,
+}
+#[kani::proof]
+#[kani::unwind(3)]
+fn cf_relational_plain() {
+    let r = cf_relational_body(0);
+    assert!(r.in_xo, "xor keeps every plain edge");
+    assert!(r.in_it != r.in_un, "a plain edge bounds exactly one of intersection and union");
+    assert!(r.in_di == if r.e_subject { r.in_un } else { r.in_it }, "difference = union on subject edges, intersection on clipping edges");
+    // xor follows the edge's own direction where the other operand is outside (union edge) and
+    // the inverted direction where it is inside (intersection edge)
+    if r.in_un {
+        assert!(r.oi_xo == r.oi_un, "xor edge outside the other operand has the union edge's direction");
+    } else {
+        assert!(r.oi_xo != r.oi_it, "xor edge inside the other operand has the inverted direction");
+    }
+    // the difference edge has the direction of the union edge on subject edges and the opposite
+    // direction of the intersection edge on clipping edges (B's boundary is traversed inverted)
+    if r.in_di {
+        if r.e_subject {
+            assert!(r.oi_di == r.oi_un, "A-B follows A's boundary direction");
+        } else {
+            assert!(r.oi_di != r.oi_it, "A-B follows B's boundary inverted");
+        }
+    }
+    kani::cover!(r.in_it, "plain edge of the intersection");
+    kani::cover!(r.in_di && !r.e_subject, "clipping edge of the difference");
+    kani::cover!(r.same_vert, "vertical predecessor of the same operand");
+}
+#[kani::proof]
+#[kani::unwind(3)]
+fn cf_relational_same() {
+    let r = cf_relational_body(1);
+    assert!(r.in_it && r.in_un && !r.in_xo && !r.in_di, "equal transitions: intersection and union keep the shared edge, xor and difference drop it");
+    assert!(r.oi_it == r.oi_un, "[KF2] shared edge has one direction for intersection and union");
+    kani::cover!(r.oi_it, "shared edge entered from outside");
+    kani::cover!(!r.oi_it, "shared edge left towards outside");
+}
+#[kani::proof]
+#[kani::unwind(3)]
+fn cf_relational_diff() {
+    let r = cf_relational_body(2);
+    assert!(!r.in_it && !r.in_un && !r.in_xo && r.in_di, "opposite transitions: only the difference keeps the shared edge");
+    kani::cover!(r.oi_di, "difference shared edge OutIn");
+    kani::cover!(!r.oi_di, "difference shared edge InOut");
+}
+
 /// C06 (ii): self-operation and operand symmetry at pair level.
 #[kani::proof]
 #[kani::unwind(3)]
@@ -430,3 +456,4 @@ fn cf_selfop_symmetry() {
     kani::cover!(kept[0] && op == Operation::Difference, "difference keeps an opposite-transition pair");
     kani::cover!(s0 == c0 && kept[0], "self-operation keeps");
 }
+
